@@ -37,8 +37,20 @@ Sid == [st |-> st, a |-> cProto, b |-> cProtoPeer, c |-> cSvc, d |-> cSvcPeer, e
         k |-> [i \in IPs |-> <<bkt[i].on, bkt[i].tok, bkt[i].exp>>]]
 
 MCInit == Init /\ hist = <<>>
-MCNextNoWatch == SysNext /\ hist' = <<>>
-MCNext == Next /\ hist' = <<>>
+(* one named action per disjunct, so that TLC's coverage statistics are per action *)
+MCOpen == (\E s \in Streams, p \in Peers, q \in Protos : Open(s, p, q)) /\ hist' = <<>>
+MCHandle == (\E s \in Streams : Handle(s)) /\ hist' = <<>>
+MCSetService == (\E s \in Streams : SetService(s)) /\ hist' = <<>>
+MCRateCheck == (\E s \in Streams : RateCheck(s)) /\ hist' = <<>>
+MCStoreAnswers == (\E s \in Streams, go \in {"reserve", "end"} : StoreAnswers(s, go)) /\ hist' = <<>>
+MCReserve == (\E s \in Streams : Reserve(s)) /\ hist' = <<>>
+MCFinish == (\E s \in Streams, how \in Hows : Finish(s, how)) /\ hist' = <<>>
+MCRemoteReset == (\E s \in Streams : RemoteReset(s)) /\ hist' = <<>>
+MCTick == Tick /\ hist' = <<>>
+MCNextNoWatch == MCOpen \/ MCHandle \/ MCSetService \/ MCRateCheck \/ MCStoreAnswers \/ MCReserve \/ MCFinish
+                 \/ MCRemoteReset \/ MCTick
+MCStartWatch == (\E i \in IPs : StartWatch(i)) /\ hist' = <<>>
+MCNext == MCNextNoWatch \/ MCStartWatch
 MCSimNext == SysNext /\ hist' = Append(hist, [l |-> lab', o |-> out', p |-> Proj'])
 
 EdgeOut == PrintT(<<"EDGE", ToJson([f |-> Sid, l |-> lab', o |-> out', t |-> Sid', p |-> Proj'])>>)
